@@ -159,53 +159,88 @@ def rangegrammar : Family := { name := "rangegrammar", gen := grammarGen, eval :
 
 /-! ## blockrange (grid) -/
 
-/-- everything the four range functions say about `file` for one range, from one ReadBlockRange -/
-def rangeOut (file : Option Bytes) (r : Option (Int × Int)) : String :=
+/-- what DumpBlockRange / DumpBinaryRange / GetBlockRangeStats say after their common first step
+(ReadBlockRange returned `data`): the three functions unfolded past that step -/
+def derivedOut (data : Bytes) (start : Int) : String :=
+  let infos := Model.dumpBlocks data start
+  let dumps := Model.dumpBinaryBlocks id data start
+  let stats := infos.map Model.blockStats
+  let infoS := showM (fun l => s!"{l.length}:{fnvStr (joinWith ";" (l.map showInfo))}") infos
+  let dumpS := showM (fun l => s!"{l.length}:{fnvStr (joinWith ";" (l.map showDump))}") dumps
+  s!"{digest data}|{infoS}|{dumpS}|{showM showStats stats}"
+
+/-- everything the four range functions say about `file` for one range, from one ReadBlockRange;
+`memo` = the previous (data, start, text): the derived text is a function of (data, start) only, so
+it is reused when ReadBlockRange returns the very same bytes again (clamped stops) -/
+def rangeOut (file : Option Bytes) (r : Option (Int × Int)) (memo : Option (Bytes × Int × String)) :
+    String × Option (Bytes × Int × String) :=
   let mr := toModelRange r
   match Model.readBlockRange file mr with
-  | .error flt => faultStr flt
-  | .ok (.error e) => "E:" ++ e.name
+  | .error flt => (faultStr flt, memo)
+  | .ok (.error e) => ("E:" ++ e.name, memo)
   | .ok (.ok data) =>
     let start := Model.rangeStart mr
-    -- the next three are DumpBlockRange / DumpBinaryRange / GetBlockRangeStats unfolded after their
-    -- common first step (the ReadBlockRange above)
-    let infos := Model.dumpBlocks data start
-    let dumps := Model.dumpBinaryBlocks id data start
-    let stats := infos.map Model.blockStats
-    let infoS := showM (fun l => s!"{l.length}:{fnvStr (joinWith ";" (l.map showInfo))}") infos
-    let dumpS := showM (fun l => s!"{l.length}:{fnvStr (joinWith ";" (l.map showDump))}") dumps
-    s!"{digest data}|{infoS}|{dumpS}|{showM showStats stats}"
+    match memo with
+    | some (d0, s0, t0) =>
+      if s0 == start && d0 == data then (t0, memo)
+      else let t := derivedOut data start; (t, some (data, start, t))
+    | none => let t := derivedOut data start; (t, some (data, start, t))
 
-/-- the same from the spec, with the per-block hashes precomputed -/
-def rangeSpec (f : RelFile) (hashes : Array String) (r : Option (Int × Int)) : String :=
-  match Spec.BlockAddr.selectBlocks f r with
+def rangeOuts (file : Option Bytes) (rs : List (Option (Int × Int))) : List String :=
+  (rs.foldl (fun (acc : Array String × Option (Bytes × Int × String)) r =>
+    let (t, m) := rangeOut file r acc.2
+    (acc.1.push t, m)) (#[], none)).1.toList
+
+/-- per-block precomputation for the spec side: hash, summary and dump line of block `i` as block `i` -/
+structure BlockPre where
+  hash : String
+  info : Spec.BlockAddr.InfoView
+  dump : String
+
+def precompute (f : RelFile) : Array BlockPre :=
+  ((Spec.BlockAddr.numbered 0 f.blocks).map fun (i, b) =>
+    let h := fnvHex (encBlock b)
+    { hash := h, info := Spec.BlockAddr.infoView i b, dump := s!"{i}:{8192 * i}:8192:8192:{h}" : BlockPre }).toArray
+
+/-- the same from the spec: blocks `first .. last` of the file, numbered by their position in the file -/
+def rangeSpec (pre : Array BlockPre) (r : Option (Int × Int)) : String :=
+  match Spec.BlockAddr.resolve r pre.size with
   | .error e => rejectName e
-  | .ok (first, bs) =>
-    let hs := (List.range bs.length).map fun i => hashes.getD (first + i) ""
-    let infos := Spec.BlockAddr.infoViews first bs
-    let dumps := Spec.BlockAddr.dumpViews first bs
+  | .ok (first, last) =>
+    let sel := (pre.toList.drop first).take (last - first + 1)
+    let infos := sel.map (·.info)
     let infoS := s!"{infos.length}:{fnvStr (joinWith ";" (infos.map showInfoView))}"
-    let dumpS := s!"{dumps.length}:{fnvStr (joinWith ";" ((dumps.zip hs).map fun (d, h) => showDumpView d h))}"
-    s!"{digestOfHashes (8192 * bs.length) hs}|{infoS}|{dumpS}|{showStatsView (Spec.BlockAddr.statsView infos)}"
+    let dumpS := s!"{sel.length}:{fnvStr (joinWith ";" (sel.map (·.dump)))}"
+    s!"{digestOfHashes (8192 * sel.length) (sel.map (·.hash))}|{infoS}|{dumpS}|{showStatsView (Spec.BlockAddr.statsView infos)}"
 
 def showBlockDump : M (Model.R (Model.BinaryDump Bytes)) → String := showR showDump
 
-def blockDumpSpec (f : RelFile) (hashes : Array String) (n : Int) : String :=
+def blockDumpSpec (pre : Array BlockPre) (n : Int) : String :=
   if n < 0 then "E:negative"
-  else if n.toNat ≥ f.blocks.length then "E:beyond"
-  else s!"{n}:{8192 * n}:8192:8192:{hashes.getD n.toNat ""}"
+  else match pre[n.toNat]? with
+    | some p => p.dump
+    | none => "E:beyond"
 
 def stops : List Int := (List.range 72).map fun (k : Nat) => (k : Int) - 1
 
+def gridRanges (start : Int) : List (Option (Int × Int)) :=
+  (stops.map fun e => some (start, e)) ++ (if start == -1 then [none] else [])
+
 /-- all ranges (start, −1..70) plus, for start = −1, the nil range; then DumpBinaryBlock(start) -/
 def gridOut (file : Bytes) (start : Int) : String :=
-  let rs : List (Option (Int × Int)) := (stops.map fun e => some (start, e)) ++ (if start == -1 then [none] else [])
-  joinWith ";" (rs.map (rangeOut (some file))) ++ "#" ++ showBlockDump (Model.dumpBinaryBlock id (some file) start)
+  joinWith ";" (rangeOuts (some file) (gridRanges start)) ++ "#" ++
+    showBlockDump (Model.dumpBinaryBlock id (some file) start)
 
 def gridSpec (f : RelFile) (start : Int) : String :=
-  let hashes := (f.blocks.map fun b => fnvHex (encBlock b)).toArray
-  let rs : List (Option (Int × Int)) := (stops.map fun e => some (start, e)) ++ (if start == -1 then [none] else [])
-  joinWith ";" (rs.map (rangeSpec f hashes)) ++ "#" ++ blockDumpSpec f hashes start
+  let pre := precompute f
+  let memo := (gridRanges start).foldl (fun (acc : Array String × Option ((Nat × Nat) × String)) r =>
+    match Spec.BlockAddr.resolve r pre.size with
+    | .error e => (acc.1.push (rejectName e), acc.2)
+    | .ok k =>
+      match acc.2 with
+      | some (k0, t0) => if k0 == k then (acc.1.push t0, acc.2) else let t := rangeSpec pre r; (acc.1.push t, some (k, t))
+      | none => let t := rangeSpec pre r; (acc.1.push t, some (k, t))) (#[], none)
+  joinWith ";" memo.1.toList ++ "#" ++ blockDumpSpec pre start
 
 def gridTotal : Nat := 65 * 2 * 72
 
